@@ -30,6 +30,8 @@ type signerItems struct {
 	Attrs    []byte           // canonical SET OF encoding of the authenticated attributes, nil if absent
 	Sig      []byte           // signature value (encryptedDigest)
 	Cert     []byte           // DER of the certificate matched by issuer and serial number
+	CertTBS  []byte           // its tbsCertificate, signatureAlgorithm and signatureValue: everything
+	CertSig  []byte           // the Certificate type of RFC 5280 has
 	SPKI     []byte           // its subjectPublicKeyInfo
 	Pub      crypto.PublicKey // parsed public key (A only)
 	DigestOI string           // digest algorithm OID, dotted (informational)
@@ -77,6 +79,8 @@ func itemsFromP7(p7 *pkcs7.PKCS7) (*items, error) {
 		}
 		if match != nil {
 			si.Cert = match.Raw
+			si.CertTBS = match.RawTBSCertificate
+			si.CertSig = match.Signature
 			si.SPKI = match.RawSubjectPublicKeyInfo
 			si.Pub = match.PublicKey
 		}
@@ -259,6 +263,10 @@ func signerItemsFromView(sv *signerView, certs []*certView) signerItems {
 	for _, c := range certs {
 		if bytes.Equal(c.issuer, sv.issuer) && bytes.Equal(c.serial, sv.serial) {
 			si.Cert = c.n.der()
+			si.CertTBS = c.n.children[0].der()
+			if sv := c.n.children[2]; sv.is(0x03) && len(sv.content) > 0 && sv.content[0] == 0 {
+				si.CertSig = sv.content[1:]
+			}
 			si.SPKI = c.spki
 			break
 		}
@@ -353,7 +361,11 @@ func sameSigner(a, b signerItems, withCert bool) string {
 	} else if !bytes.Equal(a.SPKI, b.SPKI) {
 		return "signer public key"
 	}
-	if withCert && !bytes.Equal(a.Cert, b.Cert) {
+	// the certificate: tbsCertificate and the issuer's signature over it. (The
+	// library's certificate parser, like crypto/x509, tolerates extra elements
+	// after signatureValue inside the Certificate SEQUENCE; they are part of
+	// neither and are labelled, not judged, by the callers.)
+	if withCert && (!bytes.Equal(a.CertTBS, b.CertTBS) || !bytes.Equal(a.CertSig, b.CertSig)) {
 		return "signer certificate"
 	}
 	return ""
